@@ -2183,7 +2183,7 @@ def py_comps(s):
     return out
 
 
-def run_text_funcs(ctx, prop, names, nmax, kmax, tag):
+def run_text_funcs(ctx, prop, names, nmax, kmax, tag, alpha=None, nmin=0):
     t0 = time.time()
     solver = ctx.solver(tag)
     ex = text_executor(ctx, solver, extra_inline=COMPONENT_INLINE, max_block_visits=4 * nmax + 24)
@@ -2192,11 +2192,13 @@ def run_text_funcs(ctx, prop, names, nmax, kmax, tag):
     for name in names:
         hdr, nargs, oracle, rexpr = TEXT_FUNCS[name]
         fn = ctx.mir.get(hdr)
-        shapes = [(n,) for n in range(0, nmax + 1)] if nargs == 1 else [(n, k) for n in range(0, nmax + 1) for k in range(0, kmax + 1)]
+        shapes = [(n,) for n in range(nmin, nmax + 1)] if nargs == 1 else [(n, k) for n in range(nmin, nmax + 1) for k in range(0, kmax + 1)]
         for shape in shapes:
             texts, cons = [], []
             for ai, n in enumerate(shape):
-                c, cc = sym_text(solver, "tf_%s_%s_%d" % (name, "_".join(map(str, shape)), ai), n, ascii_only=name in ASCII_ONLY)
+                c, cc = sym_text(solver, "tf_%s_%s_%s_%d" % (tag, name, "_".join(map(str, shape)), ai), n, ascii_only=name in ASCII_ONLY and alpha is None)
+                if alpha is not None:
+                    cc = cc + ["(or %s)" % " ".join("(= %s (_ bv%d 32))" % (x.v, ord(a)) for a in alpha) for x in c]
                 texts.append(c)
                 cons += cc
             g = {"a%d" % i: t for i, t in enumerate(texts)}
@@ -2671,6 +2673,20 @@ def c15_ext(ctx, prop):
     if u1["status"] != "pass" and u2["status"] == "pass":
         u2["status"], u2["why"] = u1["status"], u1.get("why", "")
     return u2
+
+
+@job("c15_protocol_unicode", ["C15", "C12"], "quick",
+     functions=["sys::trim_protocol (real MIR)"],
+     bounds="every text of 7..=8 chars over the alphabet {'f','i','l','e',':','/','F','a','\u00e9','\u212a' (KELVIN SIGN: lower-cases to a 1-byte char)}; "
+            "to_lowercase of the two non-ASCII chars follows the Unicode mapping")
+def c15_protocol_unicode(ctx, prop):
+    return run_text_funcs(ctx, prop, ["trim_protocol"], 8, 0, "c15_protocol_unicode", alpha="file:/Fa\u00e9\u212a", nmin=7)
+
+
+@job("c15_protocol_unicode9", ["C15", "C12"], "thorough", functions=["sys::trim_protocol (real MIR)"],
+     bounds="as c15_protocol_unicode with texts of exactly 9 chars")
+def c15_protocol_unicode9(ctx, prop):
+    return run_text_funcs(ctx, prop, ["trim_protocol"], 9, 0, "c15_protocol_unicode9", alpha="file:/Fa\u00e9\u212a", nmin=9)
 
 
 @job("c15_protocol_text", ["C15", "C12"], "quick",
@@ -3407,8 +3423,12 @@ MEM_OPS = {
 }
 
 
+MEM_ALPHA_OVERRIDE = [None]
+
+
 def mem_args(solver, tag, kinds, n, n2):
     vals, cons, groups = [], [], {}
+    MEM_ALPHA = MEM_ALPHA_OVERRIDE[0] or globals()["MEM_ALPHA"]
     for i, k in enumerate(kinds):
         if k in ("path", "path2"):
             L = n if k == "path" else n2
@@ -3429,7 +3449,7 @@ def mem_args(solver, tag, kinds, n, n2):
     return vals, cons, groups
 
 
-def run_memfs_single(ctx, prop, ops, nmax, n2max, cwds=("/", "/a"), tag="mem_single", tree=None, pfx=None, pre=None, npre=2):
+def run_memfs_single(ctx, prop, ops, nmax, n2max, cwds=("/", "/a"), tag="mem_single", tree=None, pfx=None, pre=None, npre=2, alpha=None):
     """pre: optional list of operations one of which is executed first (with its own symbolic arguments of 1..=npre chars):
     the obligations are those of the last call, from the state the first call leaves behind (two-call histories)"""
     t0 = time.time()
@@ -3437,6 +3457,7 @@ def run_memfs_single(ctx, prop, ops, nmax, n2max, cwds=("/", "/a"), tag="mem_sin
     ex, ob = run.ex, run.ob
     unit = dict(status="pass", failures=[])
     tree = tree or TREE1
+    MEM_ALPHA_OVERRIDE[0] = alpha
     import itertools
     pre_variants = [None]
     if pre:
@@ -3985,6 +4006,22 @@ def _mk_c09(name, ops, n2, tier, cwds=("/", "/a"), tree=None):
     def f(ctx, prop):
         return run_memfs_single(ctx, prop, ops, n2, n2, cwds=cwds, tag=name, tree=tree or TREE3, pfx="C09")
     return f
+
+
+def _mk_adv(name, ops, n, n2, tier, cwds=("/a",)):
+    @job(name, ["C12", "C03"], tier, functions=[MEM_FUNCS[0] % ",".join(ops)],
+         bounds="one call from the tree {/, /a, /a/b, /b} with cwd %s: every path text of 1..=%d chars (two-path calls 1..=%d each) over the adversarial alphabet "
+                "{'/', '.', '~', '$', 'a', '\u00e9'} (expansion of '~' and '$NAME' against a symbolic environment, a 2-byte char); obligations: no panic, the call returns, "
+                "tree invariants, failure atomicity, and the reference comparison wherever the reference determines the outcome" % (cwds, n, n2))
+    def f(ctx, prop):
+        return run_memfs_single(ctx, prop, ops, n, n2, cwds=cwds, tag=name, alpha="/.~$a\u00e9")
+    return f
+
+
+_mk_adv("c12_adv_create", ["mkfile", "mkdir_p", "write_all", "append_all"], 3, 2, "quick")
+_mk_adv("c12_adv_remove", ["remove", "remove_all", "set_cwd"], 3, 2, "quick")
+_mk_adv("c12_adv_two", ["symlink", "move_p", "copy"], 2, 2, "quick")
+_mk_adv("c12_adv_create4", ["mkfile", "mkdir_p", "remove"], 4, 2, "thorough")
 
 
 def _mk_hist(name, pre, ops, tier):
